@@ -207,7 +207,13 @@ PROPS = {
                       "normalised coordinates, so that no perturbed point leaves its bounds) and quotients (F(P[:,k]) - F(P[:,n+k])) / ||P[:,k] - P[:,n+k]||. "
                       "Complex step over (re, im) pairs of real arrays: purely imaginary one-hot perturbation columns 1j h_k e_{I_k} (h_k != 0 when the step is), "
                       "quotients Im F(x + P[:,k]) / h_k for any subset of components, sequential and parallel (the column sum used as divisor is the one-hot "
-                      "entry: lemma by induction).",
+                      "entry: lemma by induction). Glue: BaseGradientApproximator.f_gradient (with generate_perturbations inlined) for forward and centered "
+                      "differences without design space, scalar or default step, any x_indices (all the components, in order, when empty), sequential or parallel: "
+                      "J[i, k] is the quotient at the perturbed points x +- h e_{I_k}, shape (m, len(I)); parallel centered differences return the quotients of the "
+                      "sequential computation. Discipline level: split_array_to_dict_of_arrays places block (a, b) = rows of output a x columns of input b at the "
+                      "prefix sums of the sizes (one and two levels, loop invariants, recursion through its own contract); DisciplineJacApprox.compute_approx_jac "
+                      "returns jac[o][x] = that block of the complete flat Jacobian, which is the approximator's Jacobian J (all components) or the zero matrix "
+                      "whose column x_indices[k] is column k of J; Discipline.__compute_jacobian stores exactly this in self.jac in the three approximation modes.",
         "level_note": "Trusted: pyvc, the numpy model (npmodel.py: rank<=2 real arrays, paired fancy indexing, tile/reshape/T pattern), reals for floats; "
                       "pyvc/plug_c16.py (list displays with starred items, [f]*n, lists of arrays, selection union type, flattening comprehension relative to "
                       "contract-supplied offsets whose prefix-sum recurrence is a generated obligation). ASSUMED: the parallel execution is seen through the summary "
@@ -217,20 +223,29 @@ PROPS = {
                       "arrays, the differentiated function two uninterpreted maps of the real and imaginary parts; `column.imag.sum()` is replaced by the one-hot "
                       "entry named by the contract under the generated obligation that the column is one-hot (cited lemma proved as base + step SMT lemmas). "
                       "ASSUMED: DesignSpace.get_lower_bounds / get_upper_bounds return the cached bound arrays. Three defects found with these contracts were "
-                      "repaired (known_findings.json `fixed`: 5c282a6, fde9871, 04a9b48). Not covered: discipline-level wrappers, float rounding.",
+                      "repaired (known_findings.json `fixed`: 5c282a6, fde9871, 04a9b48). Discipline level, ASSUMED environment (contracts/c16_discipline.py): data converters (compute_names_to_sizes: name -> size, "
+                      "convert_data_to_array: length = total size), _create_approximator (the function handed to the approximator concatenates the outputs in "
+                      "output_names order: output dimension = total output size), the approximator seen through the shape-only summary of f_gradient, no cache "
+                      "(__set_zero_cache_tol only yields), sum(dict.values()) as an uninterpreted total stated by the converter contract. "
+                      "Not covered: check_jacobian comparison loop, auto_set_step, float rounding.",
         "design_ref": "DESIGN.md §4 C16",
         "modules": ["contracts.c16_derivatives", "contracts.c16_approx", "contracts.c16_complex", "contracts.c16_centered", "contracts.c16_discipline"],
         "assumptions": ["CallableParallelExecution.execute: summary of its C13 contract (result:length, result:positional) for tasks that all succeed; extra **kwargs of the "
                         "differentiated function are not modelled (empty)",
                         "flattening comprehension: item t of sublist j at offsets(j) + t for the unique prefix-sum offsets of the sublist lengths",
                         "a list has a non-negative length (type invariant of the selection lists)",
+                        "data converters / _create_approximator / f_gradient (shape) summaries of contracts/c16_discipline.py (see level_note); variable sizes are a function of the name "
+                        "for the discipline's current data; offsets 0 <= off(j) <= off(j+1) <= off(n) (OffsetLemmas: induction steps proved)",
                         "get_lower_bounds()/get_upper_bounds() return the cached arrays of all bounds when the normalisation data are up to date",
                         "sum of a vector with a single non-zero entry = that entry (OneHotSumLemmas, proved by induction; applied under the generated one-hot obligation)"],
         "not_covered": ["centered differences: ||2 h e|| = 2|h| (norm uninterpreted), hence the textbook quotient; a NEGATIVE centered step returns the opposite Jacobian "
                         "(division by 2|h|; observation, not repaired)", "ComplexStep.f_gradient (complex input check) and step setter",
-                        "derivatives_approx.py except _compute_variable_indices (compute_approx_jac placement, check_jacobian comparison, auto_set_step)",
-                        "BaseGradientApproximator.f_gradient / generate_perturbations glue", "compute_optimal_step", "slices with a step in check_jacobian indices; a NEGATIVE integer component is added to the offset as is (flat index in the previous variable; observation)",
-                        "parallel centered differences", "float cancellation error"],
+                        "DisciplineJacApprox.check_jacobian (comparison of the analytic and approximated blocks, threshold, shape check, pickled reference), auto_set_step, "
+                        "_create_approximator / DisciplineAdapterGenerator (assumed), compute_approx_jac with a cache (tolerance save/restore)",
+                        "Discipline.linearization_mode setter, set_jacobian_approximation, Discipline.check_jacobian, linearize",
+                        "f_gradient with a design space, with per-component step arrays (reported: ValueError with a strict subset of components after auto_set_step) and for the complex step",
+                        "compute_optimal_step / _get_opt_step", "slices with a step in check_jacobian indices; a NEGATIVE integer component is added to the offset as is (flat index in the previous variable; observation)",
+                        "float cancellation error"],
     },
     "C02": {
         "level_text": "Proof (all histories by invariant preservation, all sizes/values symbolically) that remove_variable, rename_variable, add_variable, filter_dimensions, "
@@ -289,7 +304,10 @@ PROPS = {
                       "version with these flags (physical inputs for new-iteration observables), and does nothing when already preprocessed (loop invariant, "
                       "any number of functions). MDOLinearFunction.normalize: scaled coefficients (dense matrix: A diag(s); CSR: data[p] s[indices[p]] in fresh "
                       "arrays), offset computed from the ORIGINAL coefficients, result.func(xn) = self.func(U(xn)) by an induction lemma, and the frame: "
-                      "the coefficients and every attribute of self but last_eval/dim are unchanged.",
+                      "the coefficients and every attribute of self but last_eval/dim are unchanged. "
+                      "Restart (contracts/c12_backup_clauses.py, set_optimization_history_backup@restart): with load=True and an existing backup file an empty database "
+                      "holds, before the run, exactly the points of the file in file order (index level of the C11 reader) - the points the memoisation clauses above "
+                      "then serve without calling the original functions - and evaluation_counter.current = len(database).",
         "level_note": "Trusted: pyvc, z3; arrays are opaque contents (HashableNdarray equality = content equality, byte-level caveats such as -0.0/dtype ignored); "
                       "the user's callables are deterministic uninterpreted functions; unnormalize_vect/normalize_grad/unnormalize_grad are uninterpreted here "
                       "(their arithmetic is proved under C02). Preprocessing part: precise numpy model for dense linear functions, scipy CSR matrices "
@@ -343,7 +361,15 @@ PROPS = {
                       "and no empty placeholder is left. Two budget clauses FAIL on the pinned tree and are recorded as known findings, each proved outside its failing "
                       "region and replayed on the real code at every run: 'LagrangeMultipliers.__init__ leaves the evaluation counter of the problem "
                       "unchanged' (region counter-is-nonzero) and 'once the maximum is reached the evaluation entry points of ProblemFunction evaluate nothing' "
-                      "for the entry points used without a database (_compute_output / _compute_jacobian@no-database, region database-not-used).",
+                      "for the entry points used without a database (_compute_output / _compute_jacobian@no-database, region database-not-used). "
+                      "Backup listener (contracts/c12_backup_clauses.py, the contract-expressible part of C12): Database.store@c12 - the stored point is registered in the "
+                      "export buffer and BOTH notifications happen after the point is recorded and registered (preconditions of notify_*_listeners@c12, proved at their only "
+                      "call sites); EvaluationProblem.add_listener registers a store listener iff at_each_function_call and a new-iteration listener iff at_each_iteration; "
+                      "BaseScenario.set_optimization_history_backup: ValueError iff the file exists and erase and load; the backup callback becomes store / new-iteration "
+                      "listener as selected (+ the plot callback), other listeners keep their places; the file is removed iff erase; with load the database is updated "
+                      "from the file (an empty database then holds exactly the file's points in file order) and evaluation_counter.current = len(database); otherwise "
+                      "database and counter are untouched; no file handle left open. (Observation: _init_iter_observer resets the restored counter to 0 unless "
+                      "reset_iteration_counters=False - proved as 'counter-reset-or-kept'.)",
         "level_note": "Trusted: pyvc, z3; opaque arrays; listeners are opaque callables logged in a ghost call log (their effect on the counter is linked by the lemma, "
                       "not by store's frame). Driver side: plugin pyvc/plug_c03.py (bound methods as opaque callables compared by (object, name); list "
                       "membership as a function symbol whose handed-over consequences are proved in ListMembershipLemmas; list.remove; logging-only branches "
@@ -468,7 +494,7 @@ PROPS = {
                       "result per task taken, on the normal and on the exception path) and of _TaskCallables.__call__.",
         "level_note": "The OS scheduler and the queue implementation are outside of the logic: the queue contract (exactly-once delivery, arbitrary order) is an "
                       "assumption, under which the order-sensitive sequential code is proved for every delivery order. Parallel forward finite differences "
-                      "(FirstOrderFD._compute_parallel_grad, contracts/c16_approx.py) and the parallel complex step (ComplexStep._compute_parallel_grad, contracts/c16_complex.py) are proved to return exactly the quotients of the sequential _compute_grad (same "
+                      "(FirstOrderFD._compute_parallel_grad, contracts/c16_approx.py) , the parallel complex step (ComplexStep._compute_parallel_grad, contracts/c16_complex.py), the parallel centered differences and f_gradient in parallel mode (contracts/c16_discipline.py) are proved to return exactly the quotients of the sequential _compute_grad (same "
                       "postcondition, which determines the result) through the positional summary of execute. Shared full caches (\"including when workers share a cache\"): the per-operation contracts of BaseFullCache / MemoryFullCache (contracts/c05_full_cache.py, also C05) state every operation over the WHOLE abstract store for an arbitrary prior history - cache_outputs / cache_jacobian address the entry whose inputs match, whatever entry another worker created or accessed last - so that any interleaving of the operations of several workers (each operation atomic under the cache lock, assumed) yields the store of a sequential execution of the same operations. Disciplines, linearization and chains (contracts/c13_disciplines.py, the verified contract of execute being the callee "
                       "summary of super().execute): DiscParallelExecution.execute returns the positional list and, with one discipline per input, leaves in discipline i of the ORIGINAL list the data of "
                       "worker result i (the last successful task of a discipline listed twice wins; a failed task leaves its discipline untouched with processes); _Functor.__call__ and "
@@ -492,7 +518,7 @@ PROPS = {
             "disciplines untouched - process workers have no effect on the caller's disciplines; MDOParallelChain._get_input_data_copies is an assumed (trusted) summary; cited lemma: a filtered "
             "sub-sequence keeping every item is the whole sequence; MULTI_PROCESSING_START_METHOD and ExecutionStatistics.is_enabled are arbitrary",
         ],
-        "not_covered": ["_check_unicity (set cardinality)", "parallel DOE (BaseDOELibrary._run parallel branch, __store_in_database) / parallel centered differences, compute_optimal_step; the constructors of "
+        "not_covered": ["_check_unicity (set cardinality)", "parallel DOE (BaseDOELibrary._run parallel branch, __store_in_database) / compute_optimal_step of the gradient approximators; the constructors of "
                         "DiscParallelExecution / DiscParallelLinearization / MDOParallelChain (their representation invariants are preconditions); MDOParallelChain._compute_jacobian; worker-side "
                         "statistics counters (shared memory under fork)",
                         "the lock protocol of shared caches under true concurrency (each cache operation is treated as atomic)", "pickling of workers and data (C20)"],
@@ -788,7 +814,19 @@ PROPS["C11"] = {
                   "one of ITS OWN rows says 'None' or there is no value column (ghost call record c11_added; add_variable re-verified with that record: variant @c11); "
                   "a missing minimal field or a non-consecutive repeated name ends in ValueError (no normal return); induction lemma IntervalCount for list.count (CsvLemmas). "
                   "NOT proved: to_csv / get_pretty_table (PrettyTable layer), the text round-trip lemma, to_hdf / from_hdf / to_file / from_file of DesignSpace, "
-                  "OptimizationProblem.to_hdf / from_hdf - bounded stand-in only.",
+                  "OptimizationProblem.from_hdf - bounded stand-in only. "
+                  "BACKUP CLAUSES (contracts/c12_backup_clauses.py, the contract-expressible part of C12): to_file@c12 re-proves to_file with the per-point history "
+                  "only demanded for `append and the node already holds points` (the first backup export falls back to the full export) and with the file handle closed "
+                  "at exit (ghost h5_nopen; no exception escapes); update_from_file@c12 (handle closed, file untouched, listeners kept); Database.to_hdf / "
+                  "update_from_hdf delegate to them with the database itself; OptimizationProblem.to_hdf (description block = assumed summary) calls "
+                  "Database.to_hdf(append=True) only AFTER its own handle is closed and leaves the file listing the database; BaseScenario._execute_backup_callback "
+                  "= that export in APPEND mode: when the listener returns the file lists exactly the points 0..n-1 of the database in order, every point with as "
+                  "many names as it has outputs, buffer emptied, handle closed; BackupInvariantLemmas: the precondition R of the callback holds initially (absent / "
+                  "erased / empty file), is preserved by every Database.store (any number of stores between two notifications) and restored by the export - under the "
+                  "named hypothesis that the per-point records only list names of their points. Two clauses FAIL on the pinned tree and are known findings, each "
+                  "proved outside its region and replayed on real files (contracts/rt_c12.py): set_optimization_history_backup@file 'the first export starts from an "
+                  "empty file or one listing the database' (region existing-file-neither-erased-nor-loaded) and BaseScenario.execute 'after a run that recorded "
+                  "new points the file lists the database, nothing pending' (region database-empty-before-the-run: guard `0 < n_x < n_x_a`).",
     "level_note": "Trusted: pyvc, z3, the abstract h5py model pyvc/plug_hdf.py (assumed contracts A1-A15, each validated against the real h5py by "
                   "tools/validate_h5py_model.py), sorted() as a deterministic duplicate-free listing, float64 = reals, ASCII output names. "
                   "The property is claimed at the level of the writer primitives only; DesignSpace / OptimizationProblem / HDF5Cache files are not under contract.",
@@ -802,6 +840,12 @@ PROPS["C11"] = {
         "A11 dataset iteration in order; A12 array(dataset) = stored content; A13 str(int) injective, int(str(i)) == i, 'arr_'+s injective and never decimal; "
         "A15 get_hdf5_group - every one validated natively on h5py 3.11 by tools/validate_h5py_model.py",
         "one node: all exports of a history go to the same file and node (history precondition; natively, alternating two files makes the reload raise KeyError)",
+        "backup clauses (pyvc/plug_c12.py, opt-in c12): h5py.File opens one handle (ghost h5_nopen), leaving the `with` block closes it, also on an exception; an open "
+        "is only modelled when no handle is open (precondition no-handle-open of to_file@c12 / update_from_file@c12: A1/A14 speak of the last CLOSED writer); the "
+        "backup path names the modelled file (Path.exists / unlink = ghost h5_file_exists; an absent file has no content); ASSUMED thin summaries: the description "
+        "block of OptimizationProblem.to_hdf (checked on the AST to mention neither the database nor the groups x/k/v), BaseScenario.set_algorithm, "
+        "Database.get_x_vect, and the run BaseMonitoredProcess._execute_monitored (database only grows; export preconditions preserved - the statement of "
+        "BackupInvariantLemmas, whose hypothesis `records_history` is not a proved postcondition of to_file)",
         "history preconditions (derived from the call sites Database.store -> add_pending_array and to_file): between two exports to the same node the database only "
         "grows - new points are appended, new names are added at existing points, no deletion / re-ordering / overwrite of an exported name "
         "(Database.clear*, filter, remove_empty_entries, __delitem__ are excluded); stated as `requires` history:* of __get_missing_hdf_output_dataset / __append_hdf_output",
@@ -991,17 +1035,84 @@ PROPS["C14"] = {
 }
 
 PROPS["C19"] = {
-    "level_text": "PROVISIONAL (being written)",
-    "level_note": "",
+    "level_text": "Proof of gemseo's OWN side of the property, the third-party distribution objects being abstract (contracts/c19_uncertainty.py, pyvc/plug_c19.py): "
+                  "(a) wrappers: SPDistribution / OTDistribution compute_cdf, compute_inverse_cdf, _cdf, _pdf, mean, standard_deviation return exactly what the wrapped object "
+                  "answers; compute_samples returns the values of exactly ONE call of the wrapped sampler (ghost record of the third-party draws); _create_distribution wraps the "
+                  "object made from exactly (library, name, parameters) - for OpenTURNS composed with the transformation, then truncated, in this order - and records as range / "
+                  "support what THIS FINAL object reports (SciPy: interval(1) and the quantiles at 1e-12 / 1 - 1e-12; OpenTURNS: getRange(), -inf / +inf where it says the bound "
+                  "is not finite); BaseDistribution.range / support return the recorded bounds; (b) joint distributions: compute_cdf / compute_inverse_cdf of SPJointDistribution "
+                  "and OTJointDistribution send component i through marginal i (length min(len(value), number of marginals)); _set_bounds, mean, standard_deviation, range, "
+                  "support take component i from marginal i; (c) named SciPy-based distributions (normal, uniform, exponential, triangular, beta) and SPDistribution.__init__: the "
+                  "SciPy name and EXACTLY the keyword parameters computed from the arguments (loc / scale / c / a / b), + arithmetic lemmas that these denote the law the arguments "
+                  "describe under SciPy's documented location-scale parameterisation; (d) ParameterSpace: evaluate_cdf returns exactly one entry per uncertain variable, the "
+                  "(inverse) joint CDF of THE distribution of this variable applied to the entry of this variable, and __check_dict_of_array rejects exactly the entries of "
+                  "uncertain variables of the wrong size or outside [0, 1]; __normalize_vect / __unnormalize_vect / normalize_vect / unnormalize_vect / transform_vect / "
+                  "untransform_vect return the concatenation, IN THE VARIABLE ORDER, of blocks R[v]: (inverse) joint CDF of the distribution OF v applied to the block of v for "
+                  "every uncertain v, the block of v of DesignSpace.[un]normalize_vect (the affine design-space map of C02) for every deterministic v, and change nothing; "
+                  "is_uncertain / is_deterministic (partition of the variables); get_range / get_support (what the distribution OF the variable reports); remove_variable (C02 "
+                  "postcondition + the variable leaves uncertain_variables with the order of the others kept and its distribution is dropped, the parameter-space invariant is "
+                  "kept; the DesignSpace helpers are re-verified with the ParameterSpace fields in the state: they do not touch them); (e) lemmas over these contracts + the "
+                  "ASSUMED marginal axioms (icdf(cdf(x)) = x on the support, cdf(icdf(u)) = u on (0,1), monotone, values in [0,1] / in the support): the joint inverse CDF undoes "
+                  "the joint CDF component-wise (and conversely), CDF values are probabilities, and untransform_vect(transform_vect(x)) recovers every component of every "
+                  "variable block of x (uncertain: marginal axioms; deterministic: the C02 bijection), the transformed uncertain components lying in [0, 1] as untransform_vect "
+                  "demands. KNOWN FINDING (known_findings.json): normalize_vect / unnormalize_vect never forward `minus_lb` (normalize_grad / unnormalize_grad of a ParameterSpace are "
+                  "wrong); the clauses are proved for minus_lb=True.",
+    "level_note": "Trusted: pyvc, z3 (floats read as reals; infinite bounds are tags), pyvc/plug_c19.py. ASSUMED - this IS the third-party part: a wrapped SciPy / OpenTURNS "
+                  "distribution object is an abstract record; cdf / ppf / pdf / mean / std / interval (computeCDF / computeQuantile / computePDF / getMean / getStandardDeviation / "
+                  "getRange) are deterministic uninterpreted functions of the object and the argument without side effect; every sampler call (rvs / getSample) returns a new array of the "
+                  "requested size that is not a function of the arguments; creation returns an object made from exactly (library, name, parameters) or raises; the inverse / monotony / "
+                  "range axioms of the marginals are HYPOTHESES of the lemmas, nowhere proved. ASSUMED callee summaries (listed in the evidence): "
+                  "_create_distribution_from_module, OTDistribution.__transform_distribution / __truncate_distribution (string formatting, comparisons with infinite bounds), "
+                  "ParameterSpace.build_joint_distribution (nested comprehension), split_array_to_dict_of_arrays / concatenate_dict_of_arrays_to_array (abstract blocks c19_block / "
+                  "c19_concatenate relative to the ghost layout c19_variable_size = sizes of the variables of the entry state; their mutual-inverse algebra is a hypothesis of the "
+                  "round-trip lemma), DesignSpace.normalize_vect / unnormalize_vect at this level (uninterpreted functions of variables, policies, flag, minus_lb and the vector; their "
+                  "component-wise content and bijectivity are proved under C02; the cached normalisation data they refresh are not part of the state modelled here), the C02 "
+                  "postcondition of DesignSpace.remove_variable on a parameter space (proved under C02 on the same body; what is proved here is that the body does not touch the "
+                  "ParameterSpace fields). A joint distribution / marginal held by a parameter space is an abstract record honouring the contracts verified for the joint / wrapper "
+                  "classes (behavioural subtyping). Vectors are rank-1 (one point); LOGGER calls are skipped. OBSERVATIONS (not clauses, see the report): remove_variable leaves "
+                  "`distribution` (the joint of all uncertain variables) STALE when the last uncertain variable is removed - compute_samples still samples the removed variable; the "
+                  "forward evaluate_cdf silently truncates a block whose length differs from the number of marginals (zip), only the inverse direction checks sizes; "
+                  "unnormalize_vect(use_dist=True) ignores `out`.",
     "design_ref": "DESIGN.md §4 C19",
     "modules": ["contracts.c19_uncertainty"],
-    "assumptions": [],
-    "not_covered": [],
+    "assumptions": ["third-party distribution objects are abstract: cdf/ppf/pdf/mean/std/interval/getRange are uninterpreted functions c19_* of the object (and the argument); samplers return new arrays "
+                    "recorded in the ghost log c19_draw_*; creation = c19_created_* of (library, name, parameters)",
+                    "marginal axioms (hypotheses of the lemmas only): icdf(cdf(x)) = x on the support, cdf(icdf(u)) = u on (0,1), cdf and icdf monotone, 0 <= cdf <= 1, icdf(u) in the support",
+                    "SciPy's location-scale parameterisation of norm / uniform / expon / triang / beta (hypothesis of NamedDistributionLemmas; cross-checked natively for a few values)",
+                    "block algebra of split_array_to_dict_of_arrays / concatenate_dict_of_arrays_to_array: block v has size(v) components; splitting a concatenation of blocks of the right sizes "
+                    "gives the blocks back (hypotheses S1 / A1 of the round-trip lemma)",
+                    "DesignSpace.normalize_vect / unnormalize_vect act component-wise on each block and are mutually inverse (hypothesis DC of the round-trip lemma; proved in C02 for lb < ub and "
+                    "for unbounded components, without integer rounding)",
+                    "parameter-space invariant (precondition of the transformations and of remove_variable, preserved by remove_variable; its establishment by add_random_vector is NOT verified): "
+                    "every uncertain variable is a design variable with a joint distribution of as many marginals as the variable has components, no name listed twice",
+                    "x_vect / vector is a rank-1 array; out is None"],
+    "not_covered": ["numerical values of cdf / ppf / moments of any law, their mutual inverseness and monotony in floating point, samples lying in the reported support, analytical moments vs reported "
+                    "range / mean / standard deviation, agreement of the SciPy- and OpenTURNS-based versions of the same law (all third-party, floating point: only stated as hypotheses)",
+                    "empirical statistics (gemseo.uncertainty.statistics), fitting, Dirac / Weibull / log-normal named distributions (string selection, exp / log), ALL named OpenTURNS-based classes "
+                    "and OTDistribution.__init__ (heterogeneous **options forwarding is outside the engine's subset), OTDistribution.__truncate_distribution's ValueError conditions (comparisons "
+                    "with infinite support bounds)",
+                    "ParameterSpace.add_random_variable / add_random_vector (factory, per-component parameter broadcasting, class objects as values): hence that a variable is registered with the "
+                    "distribution's support as bounds and its mean as current value, and the establishment of the parameter-space invariant; add_variables_from, rename_variable, "
+                    "init_from_dataset, to_design_space, extract_uncertain_space / extract_deterministic_space (DesignSpace.filter / deep copy), __getitem__ / __setitem__, tabular views",
+                    "ParameterSpace.compute_samples, BaseJointDistribution.compute_samples, OTJointDistribution.compute_samples, joint _create_distribution (comprehensions with third-party "
+                    "side effects, OpenTURNS ComposedDistribution / copulas); that remove_variable rebuilds the joint distribution of all uncertain variables from the remaining ones",
+                    "rank-2 batches in evaluate_cdf / transform_vect (list(map(compute, rows))), the `out` argument",
+                    "the block algebra of the conversion utilities and the length of the transformed vector (assumed, see assumptions)"],
 }
 
 _TODO = "not yet under contract in this build; see DESIGN.md §9 (build order) - no other technique is substituted"
 NOT_APPLICABLE = {
-    "C12": "quantifies over process-death points and on-disk HDF5 state, which function contracts cannot express; the contract-expressible restart clauses are obligations of C01/C03 (DESIGN.md §6)",
+    "C12": "quantifies over process-death points (a kill at an ARBITRARY instruction of the k-th discipline execution) and over the on-disk state of an HDF5 file, which "
+           "function contracts cannot express: atomicity of an export interrupted half-way (a half-written / unflushed HDF5 file, h5py/libhdf5 buffering) and loadability of "
+           "such a file are outside any contract on Python functions. The contract-expressible clauses are proved (or recorded as findings) where they belong "
+           "(contracts/c12_backup_clauses.py): C11 - every export (HDFDatabase.to_file@c12 <- Database.to_hdf <- OptimizationProblem.to_hdf <- "
+           "BaseScenario._execute_backup_callback, APPEND mode) leaves the file listing exactly the points recorded so far, in order, with the file handle CLOSED, and the "
+           "callback's precondition is an invariant of store + notification (BackupInvariantLemmas), i.e. the file a crash BETWEEN two notifications finds is the closed "
+           "prefix written at the last notification; known findings: existing file neither erased nor loaded, final export skipped when the database was empty before the "
+           "run; C03 - listeners are notified after recording + registration for export, the backup listener is registered as store / new-iteration listener as selected, "
+           "erase / load branches, restored counter; C01 - after load the database holds the file's points (served from the database without re-evaluation by C01's "
+           "memoisation clauses). Not proved anywhere: the VALUE-level content of the reloaded entries (C11 reader content clauses), 'optimum at least as good as the best "
+           "loaded one' (C04 on the restarted database) and 'same history as the uninterrupted run' (needs determinism of the algorithm) (DESIGN.md §6)",
 }
 for _p in ["C%02d" % i for i in range(1, 21)]:
     if _p not in PROPS and _p not in NOT_APPLICABLE:
